@@ -78,6 +78,17 @@ Theorem C19_generated_offset_vector_distances : forall (qsqrt qcos qsin : Q -> Q
 Proof. intros. apply move_vec_distances; assumption. Qed.
 Print Assumptions C19_generated_offset_vector_distances.
 
+(* sub_rects_from_rect_dimensions (hand model SubDims.v, run against the implementation): for every parameter value the
+   rectangles lie strictly between sill and top inside the parent, between its left and right edges, and do not overlap *)
+From LBG Require Import SubDims.
+Theorem C19_sub_rects_dimensions_inside_and_disjoint : forall base height srh0 srw0 sill0 hsep0,
+  0 < base -> 0 < height -> 0 < srh0 -> 0 < srw0 -> 0 < hsep0 ->
+  let L := rects_dims base height srh0 srw0 sill0 hsep0 in
+  (1 <= cols L)%Z /\ 0 <= layout_left L /\ layout_right L <= base /\ 0 < layout_bottom L /\ layout_top L < height /\
+  (lw L <= pitch L \/ cols L = 1%Z) /\ rows L = 1%Z.
+Proof. intros. apply rects_dims_inside; assumption. Qed.
+Print Assumptions C19_sub_rects_dimensions_inside_and_disjoint.
+
 (* non-vacuity: a right-angle corner (half angle 45 deg is irrational, so use the 3-4-5 half angle), and a 10 x 3 wall *)
 Example C19_nonvacuous :
   (let m := offset_move (mkV2 1 0) (4 # 5) (3 # 5) 1 in det2 m (mkV2 1 0) == 1) /\
